@@ -29,7 +29,9 @@ A0 == [ nOde |-> 0, nOdeJ |-> 0, nJac |-> 0, nEv |-> 0, nCb |-> 0,
         iv |-> <<>>,            \* ranks of the stepper evaluations since the last callback
         prevMod |-> FALSE,      \* the last callback returned ModifiedSolution (one re-evaluation follows it)
         mAtt |-> 0, mAcc |-> 0, mRej |-> 0, mTot |-> 0, lbBad |-> 0,
-        gapped |-> FALSE, everGapped |-> FALSE ]   \* events were elided since the last callback / anywhere in this run
+        gapped |-> FALSE, everGapped |-> FALSE,
+        \* Level B (BdfOrder.tla): order the previous step was taken with, length of the run of equal steps, offences
+        bdfOrd |-> 0, bdfRun |-> 0, bdfBad |-> 0, bdfMax |-> 0 ]   \* events were elided since the last callback / anywhere in this run
 
 TraceInit == l = 1 /\ C = NoCall /\ A = A0
 
@@ -95,7 +97,9 @@ TraceCb ==
            need == IF first \/ C.method = "BDF" \/ A.gapped \/ e.d \in A.recent THEN "" ELSE e.d
            \* ---- Level B: the evaluations since the previous callback are (rejected attempts)* accepted attempt,
            \* each attempt a fixed block of stage evaluations at x + c_i h (Stepper.tla Trial), as coded per method
+           \* (a scheduled XOut point makes DOP853 build dense coefficients on some steps only: not modelled)
            explicit == C.method \in {"RK4", "RK23", "DOPRI5", "DOP853"} /\ C.api = "low"
+                       /\ ~(\E j \in 1..Len(C.script) : C.script[j].action = "xout")
            per   == CASE C.method = "RK4" -> 4 [] C.method = "RK23" -> 3 [] C.method = "DOPRI5" -> 6 [] OTHER -> 11
            extra == IF C.method = "DOP853" THEN (IF C.lowdense THEN 4 ELSE 1) ELSE 0
            evs   == IF A.prevMod /\ Len(A.iv) >= 1 THEN Tail(A.iv) ELSE A.iv
@@ -113,6 +117,15 @@ TraceCb ==
            \* rejection counting rule of the code: RK23 counts every rejection; DOPRI5/DOP853 only once two steps were accepted
            rejCounted == IF C.method = "RK23" THEN nrejNow ELSE IF A.mAcc > 1 THEN nrejNow ELSE 0
            totNow == IF first THEN 0 ELSE IF C.method \in {"RK4", "RK23"} THEN 1 ELSE nrejNow + 1
+           \* ---- Level B (BdfOrder.tla): order bookkeeping of BDF as seen through the dense coefficient marker
+           bdf   == C.method = "BDF" /\ C.api = "low" /\ ~first /\ e.hasip
+           o     == e.ip.ord
+           bdfok == ~bdf \/
+                    ( /\ o >= 1 /\ o <= 5
+                      /\ (A.prevMod => o = 1)                                            \* ModifiedSolution restarts at order 1
+                      /\ (A.bdfOrd # 0 /\ ~A.prevMod => (o - A.bdfOrd \in {-1, 0, 1}))   \* one order at a time
+                      /\ (A.bdfOrd # 0 /\ o = A.bdfOrd + 1 => A.bdfRun >= A.bdfOrd + 1) ) \* an increase needs order+1 equal steps
+           runNow == IF bdf /\ o = A.bdfOrd /\ e.ip.heq THEN A.bdfRun + 1 ELSE 1
        IN A' = [A EXCEPT !.nCb = @ + 1,
                          !.cbBad = IF ok THEN @ ELSE @ + 1,
                          !.ipBad = IF ipok THEN @ ELSE @ + 1,
@@ -124,6 +137,9 @@ TraceCb ==
                          !.mAcc = IF first THEN @ ELSE @ + 1,
                          !.mRej = @ + rejCounted,
                          !.mTot = @ + totNow,
+                         !.bdfBad = IF bdfok THEN @ ELSE @ + 1,
+                         !.bdfOrd = IF bdf THEN o ELSE @, !.bdfRun = runNow,
+                         !.bdfMax = IF bdf /\ o > @ THEN o ELSE @,
                          !.lastX = e.x.r, !.lastXb = e.x.b,
                          !.afterStop = IF A.interrupted THEN @ + 1 ELSE @,
                          !.interrupted = (e.ret = "Interrupt"),
@@ -135,7 +151,7 @@ TraceGap ==
     /\ LET e == Rec[l] IN
        A' = [A EXCEPT !.nOde = @ + e.n_ode, !.nOdeJ = @ + e.n_odej, !.nJac = @ + e.n_jac, !.nEv = @ + e.n_ev,
                       !.nCb = @ + e.n_cb,
-                      !.recent = {}, !.needDeriv = "", !.iv = <<>>, !.gapped = TRUE, !.everGapped = TRUE, !.modPending = "",
+                      !.recent = {}, !.needDeriv = "", !.iv = <<>>, !.gapped = TRUE, !.everGapped = TRUE, !.modPending = "", !.bdfOrd = 0, !.bdfRun = 0,
                       !.evalOut = @ + Out(e.rmin) + Out(e.rmax),
                       !.maxEval = IF e.rmax > @ THEN e.rmax ELSE @]
     /\ UNCHANGED C
@@ -160,11 +176,14 @@ TraceRet ==
        /\ Viol("C19", "protocol", C19_Protocol(C, A, R))
        \* Level B conformance (drift, never a violation): attempt structure and the counters the model predicts
        /\ LET lb == C.method \in {"RK4", "RK23", "DOPRI5", "DOP853"} /\ C.api = "low" /\ R.kind = "low"
+                      /\ ~(\E j \in 1..Len(C.script) : C.script[j].action = "xout")
                       /\ R.status \in {"Success", "UserInterrupt"} /\ ~A.everGapped IN
           /\ (lb /\ A.lbBad > 0) => PrintT(<<"DRIFT", "attempt_structure", C.id, C.method>>)
           /\ (lb /\ A.lbBad = 0 /\ ~(R.naccpt = A.mAcc /\ R.nrejct = A.mRej /\ R.nstep = A.mTot))
                 => PrintT(<<"DRIFT", "counting_rule", C.id, C.method, <<R.naccpt, R.nrejct, R.nstep>>, <<A.mAcc, A.mRej, A.mTot>>>>)
           /\ lb => PrintT(<<"COVER", C.method, A.mAcc, A.mAtt - A.mAcc>>)
+       /\ (C.method = "BDF" /\ C.api = "low" /\ A.bdfBad > 0) => PrintT(<<"DRIFT", "bdf_order", C.id, C.method>>)
+       /\ (C.method = "BDF" /\ C.api = "low" /\ R.kind = "low") => PrintT(<<"COVER", "BDF_max_order_" \o ToString(A.bdfMax), 1, 0>>)
     /\ A' = [A EXCEPT !.active = FALSE]
     /\ UNCHANGED C
 
